@@ -978,3 +978,16 @@ Theorem mixed_down_up_valid i H V : valid i -> 0 <= H <= eh i -> ev i <= V -> fo
   In o (one H V i) <->
   eh o = H /\ ev o = V /\ ex o = anc (eh i - H) (ex i) /\ ey o = anc (eh i - H) (ey i) /\ anc (V - ev i) (ef o) = ef i.
 Proof. intros Hv. apply mixed_down_up. now apply valid_wf. Qed.
+
+(* ================================================================================================================== *)
+(* 11. One input ID through the list-level function and through the exported API: `one` is what the API returns        *)
+(* ================================================================================================================== *)
+Theorem change_single i H V : change_eids [i] H V = one H V i.
+Proof.
+  unfold change_eids. cbn [flat_map]. rewrite app_nil_r. apply (nodupb_id eid_eqb eid_eqb_spec). apply one_NoDup.
+Qed.
+Theorem change_ext_api_single i H V : valid i -> 0 <= H <= 35 -> 0 <= V <= 35 ->
+  change_ext_api [print_eid i] H V = Ok (map print_eid (one H V i)).
+Proof.
+  intros Hv HH HV. rewrite <- change_single. apply (change_ext_api_spec [i] H V); auto. intros j [<-|[]]. exact Hv.
+Qed.
